@@ -688,6 +688,81 @@ fn mutants(base: &Spend, kind: &str, m: &MutCtx, rng: &mut Rng, budget: usize) -
             }
         }
     }
+    // the hash-type byte of every valid signature rewritten (every output type incl. pkh / wpkh / tr key
+    // path).  ECDSA: non-standard bytes that a lossy decoder maps onto a standard type (00, 04, 05, 21,
+    // 41, 80, ff) and the other standard types (a signature made for one type is invalid under another:
+    // the digest commits to the byte as given).  Schnorr: a type byte appended to a 64-byte (Default)
+    // signature, the explicit byte of a 65-byte one changed.
+    {
+        let rewrite = |sg: &Vec<u8>| -> Vec<(String, Vec<u8>)> {
+            let mut r = Vec::new();
+            if m.tap {
+                let bytes: &[u8] = &[0x01, 0x02, 0x03, 0x81, 0x82, 0x83, 0x04, 0x80, 0xff];
+                if sg.len() == 64 {
+                    for b in bytes {
+                        let mut x = sg.clone();
+                        x.push(*b);
+                        r.push((format!("sig-hashbyte-{:02x}", b), x));
+                    }
+                } else if sg.len() == 65 {
+                    for b in bytes.iter().chain([0x00u8].iter()) {
+                        if sg[64] != *b {
+                            let mut x = sg.clone();
+                            x[64] = *b;
+                            r.push((format!("sig-hashbyte-{:02x}", b), x));
+                        }
+                    }
+                    r.push(("sig-hashbyte-none".into(), sg[..64].to_vec()));
+                }
+            } else if sg.len() >= 9 {
+                for b in [0x00u8, 0x04, 0x05, 0x21, 0x41, 0x80, 0xff, 0x01, 0x02, 0x03, 0x81, 0x82, 0x83] {
+                    if sg[sg.len() - 1] != b {
+                        let mut x = sg.clone();
+                        let n = x.len();
+                        x[n - 1] = b;
+                        r.push((format!("sig-hashbyte-{:02x}", b), x));
+                    }
+                }
+            }
+            r
+        };
+        let mut nsig = 0;
+        for i in 0..base.wit.len() {
+            if w_struct(i) || !m.sigs.contains(&base.wit[i]) {
+                continue;
+            }
+            nsig += 1;
+            for (j, (name, nb)) in rewrite(&base.wit[i]).into_iter().enumerate() {
+                if nsig > 1 && j % 4 != 0 {
+                    continue; // further signatures: every fourth byte value
+                }
+                let mut s2 = base.clone();
+                s2.wit[i] = nb;
+                s2.base = "mut";
+                s2.mkind = format!("w:{}", name);
+                if seen.insert((s2.wit.clone(), s2.ssig.clone())) {
+                    out.push(s2);
+                }
+            }
+        }
+        for i in 0..items.len() {
+            if s_struct(i) || !m.sigs.contains(&items[i]) {
+                continue;
+            }
+            nsig += 1;
+            for (j, (name, nb)) in rewrite(&items[i]).into_iter().enumerate() {
+                if nsig > 1 && j % 4 != 0 {
+                    continue;
+                }
+                let mut it = items.clone();
+                it[i] = nb;
+                let s2 = Spend { mkind: format!("s:{}", name), base: "mut", wit: base.wit.clone(), ssig: build_ssig(&it) };
+                if seen.insert((s2.wit.clone(), s2.ssig.clone())) {
+                    out.push(s2);
+                }
+            }
+        }
+    }
     // scriptSig shape, every output type: extra pushes (empty, 01, junk) in front of and behind the
     // existing ones.  BIP141: the scriptSig of a P2SH-wrapped witness program is exactly the push of
     // the redeem script, the scriptSig of a native witness program (wsh, wpkh, tr) is empty.
@@ -989,7 +1064,8 @@ fn eval_policy(p: &Semantic<Key>, rep: &Reported) -> bool {
         Semantic::Trivial => true,
         Semantic::Key(k) => rep.keys.contains(&k.to_x_only_pubkey().serialize().to_vec()),
         Semantic::After(t) => rep.after.contains(&t.to_consensus_u32()),
-        Semantic::Older(t) => rep.older.contains(&t.to_consensus_u32()),
+        // the interpreter reports a relative::LockTime: type flag + low 16 bits of the operand
+        Semantic::Older(t) => rep.older.contains(&(t.to_consensus_u32() & 0x0040_ffff)),
         Semantic::Sha256(h) => rep.hashes.contains(&(0, h.as_byte_array().to_vec())),
         Semantic::Hash256(h) => rep.hashes.contains(&(1, h.as_byte_array().to_vec())),
         Semantic::Ripemd160(h) => rep.hashes.contains(&(2, h.as_byte_array().to_vec())),
@@ -1283,6 +1359,36 @@ fn emit_spend(
             }
             writeln!(out, "{}", l).unwrap();
             if verdict == "ok" {
+                // for the classification of a false accept: pairs that are invalid as given but become
+                // valid once the hash-type byte is replaced by a standard one (resp. dropped, taproot)
+                for k in keys.iter() {
+                    for s in sigs.iter() {
+                        if ok_pairs.contains(&(k.clone(), s.clone())) || s.is_empty() {
+                            continue;
+                        }
+                        let mut alts: Vec<Vec<u8>> = Vec::new();
+                        if tap {
+                            if s.len() == 65 {
+                                alts.push(s[..64].to_vec());
+                                for b in [1u8, 2, 3, 0x81, 0x82, 0x83] {
+                                    let mut x = s.clone();
+                                    x[64] = b;
+                                    alts.push(x);
+                                }
+                            }
+                        } else {
+                            for b in [1u8, 2, 3, 0x81, 0x82, 0x83] {
+                                let mut x = s.clone();
+                                let n = x.len();
+                                x[n - 1] = b;
+                                alts.push(x);
+                            }
+                        }
+                        if alts.iter().any(|a| a != s && oracle_sigok(secp, tx, &prevout, &sctx, k, a)) {
+                            writeln!(out, "SIGHB {} {}", hex(k), hex(s)).unwrap();
+                        }
+                    }
+                }
                 // taproot key spend: the reported key is the output key; it stands for the internal key
                 if c.kind == "tr" || c.kind == "trkey" {
                     if rep.keys.contains(&spk.as_bytes()[2..34].to_vec()) {
